@@ -166,12 +166,65 @@ def run(ctx, model):
                 "what": "the emitted escape does not parse by the protocol's format to exactly the fields that were set (or keys repeat / payload differs)",
                 "case": {"tokens": toks, "escape": hexs(esc)},
             })
+    builder_helpers(ctx, model, tup, cov)
     if not ctx.quick():
         exhaustive_transmit(ctx, model, tup, cov)
     return cov
 
 
+def builder_helpers(ctx, model, tup, cov):
+    """Commands assembled through the builder helpers (set_filename, set_data, set_data_from_file, set_placement) —
+    the way TupimageTerminal and scripts build them: what the terminal decodes must be what the caller handed to the helper
+    (the file name AS GIVEN, the bytes as given, the placement fields as given)."""
+    gc = tup.graphics_command
+    tmpl = gc.GraphicsCommand.DEFAULT_TEMPLATE
+    rng = ctx.rng
+    names = ["/tmp/tty-graphics-protocol-abc.png", "images/cat.png", "cat.png", "./a/../b.png", "/abs//double/slash.png", "/abs/dir/../up.png",
+             "psm_12ab34cd", "__nonexistent__", "~/pic.png", "/home/u/картинка 1.png", "a;b,c=d.png", " leading space.png", "trailing/", ""]
+    want = []
+    for name in names:
+        for medium in (gc.TransmissionMedium.FILE, gc.TransmissionMedium.TEMP_FILE, gc.TransmissionMedium.SHARED_MEMORY):
+            c = gc.TransmitCommand(image_id=rng.randrange(1, 2**32), medium=medium).set_filename(name)
+            want.append((f"set_filename({name!r}) t={medium.value}", name.encode(), c.to_bytes(tmpl), c))
+    for _ in range(ctx.pick(40, 400)):
+        data = rng.randbytes(rng.choice([0, 1, 2, 3, 7, 100]))
+        c = gc.TransmitCommand(image_id=rng.randrange(1, 2**32)).set_data(data)
+        want.append(("set_data(bytes)", data, c.to_bytes(tmpl), c))
+        path = os.path.join(ctx.work, "c06-helper.bin")
+        with open(path, "wb") as f:
+            f.write(data)
+        c = gc.TransmitCommand(image_id=7).set_data_from_file(path)
+        want.append(("set_data_from_file", data, c.to_bytes(tmpl), c))
+        c.data.close()
+    reps = model.batch([f"cmd.spec_parse {hexs(esc)}" for _, _, esc, _ in want])
+    for (what, payload, esc, c), rep in zip(want, reps):
+        cov.add({"helper": what, "payload": hexs(payload)}, klass="helper/" + what.split("(")[0])
+        got = None
+        if rep != "NONE" and ";" in rep:
+            p = rep.split(";")[1]
+            got = b"" if p in ("NOPAYLOAD", "-") else bytes.fromhex(p)
+        if got != payload:
+            ctx.violations.append({"signature": {"class": "payload-differs-from-what-the-helper-was-given", "helper": what.split("(")[0]},
+                                   "what": f"{what}: the terminal decodes the payload {got!r}, the caller gave {payload!r}", "case": {"tokens": ["helper", what], "escape": hexs(esc)}})
+    # set_placement(**kwargs) == placement=PlacementData(**kwargs)
+    g = cmdcodec.Gen(ctx.rng, gc)
+    for _ in range(ctx.pick(60, 600)):
+        fields = [f for f in g.FIELDS_P if rng.random() < 0.4]
+        kw = {f: g.value(f) for f in fields}
+        a = gc.TransmitCommand(image_id=5).set_placement(**kw).to_bytes(tmpl)
+        b = gc.TransmitCommand(image_id=5, placement=gc.PlacementData(**kw)).to_bytes(tmpl)
+        cov.add({"helper": "set_placement", "fields": fields}, klass="helper/set_placement")
+        if a != b:
+            ctx.violations.append({"signature": {"class": "payload-differs-from-what-the-helper-was-given", "helper": "set_placement"},
+                                   "what": f"set_placement({kw}) serialises to {a!r}, the same fields given as placement= to {b!r}", "case": {"tokens": ["helper", "set_placement"], "escape": hexs(a)}})
+
+
 def replay(ctx, model, rec):
     case = rec["case"]
+    if case["tokens"][:1] == ["helper"]:
+        sub = common.Ctx(ctx.prop, ctx.tier, ctx.seed)
+        sub.work = ctx.work
+        builder_helpers(sub, model, common.import_impl(), common.Coverage("replay"))
+        return {"violates": bool(sub.violations), "violations": [v["what"] for v in sub.violations][:3]}
     ok = model.one(f"cmd.conforms {case['escape']} " + " ".join(case["tokens"]))
     return {"violates": ok != "1", "spec_conforms": ok, "spec_parse": model.one(f"cmd.spec_parse {case['escape']}")}
